@@ -214,6 +214,10 @@ func NewBalDriver(mode string) *BalDriver {
 			balOp{kind: "burn", from: "A", amt: bigS("3"), signer: "m0"},
 			balOp{kind: "lock", from: "A", to: "Lnext", amt: bigS("3"), until: 1, signer: "m0"},
 			balOp{kind: "tick", signer: "m0", de: 1}, balOp{kind: "balEpoch", signer: "m0"},
+			// the epoch unlock called directly with an epoch ahead of Netmap's: a live lock (until = epoch+1) is due,
+			// so whoever gets the call through debits the lock account
+			balOp{kind: "balEpochAhead", signer: "S"}, balOp{kind: "balEpochAhead", signer: "A"}, balOp{kind: "balEpochAhead", signer: "M"},
+			balOp{kind: "balEpochAhead", signer: "m0"}, balOp{kind: "balEpochAhead", signer: "C"},
 			balOp{kind: "transfer", from: "A", to: "B", amt: bigS("3"), signer: "M"},
 			// a lock account is nobody's to spend: not its parent's, not a stranger's
 			balOp{kind: "transfer", from: "L1", to: "A", amt: bigS("3"), signer: "to"},
@@ -618,9 +622,9 @@ func (d *BalDriver) Step(x *Exec, n *Node, i int) StepResult {
 	if sb != nil && sa != nil {
 		delta := new(big.Int).Sub(sa, sb)
 		want := new(big.Int)
-		if obs.Halt && o.kind == "mint" {
+		if obs.Halt && !refused && o.kind == "mint" {
 			want.Set(amt)
-		} else if obs.Halt && o.kind == "burn" {
+		} else if obs.Halt && !refused && o.kind == "burn" {
 			want.Neg(amt)
 		}
 		if delta.Cmp(want) != 0 {
